@@ -99,6 +99,8 @@ type agg struct {
 	start   time.Time
 	nviol   int
 	horizon float64
+	det      bool
+	detLines []string
 }
 
 func newAgg(o *WorkerOpts) *agg {
@@ -222,6 +224,30 @@ func RunWorker(o *WorkerOpts) *WorkerStats {
 	}
 	a.finish()
 	return &a.st
+}
+
+// DetRun runs n seeds of a property once each (in order, or reversed) and returns one line per run:
+// seed, event-log hash, scheduling points, context-switch hash, violations. The determinism
+// self-test diffs these lines across processes, batch positions and GOMAXPROCS values.
+func DetRun(prop string, base uint64, n int, reverse bool) []string {
+	spec := Props[prop]
+	o := &WorkerOpts{Prop: prop, Budget: time.Hour, MaxViol: 1 << 30, MinimizeS: 0.001, ReplayDir: os.TempDir()}
+	a := newAgg(o)
+	a.det = true
+	idx := make([]int, n)
+	for i := range idx {
+		idx[i] = i
+		if reverse {
+			idx[i] = n - 1 - i
+		}
+	}
+	for _, i := range idx {
+		for _, eng := range spec.Engines {
+			eng.Run(a, spec, simrt.Mix(base, uint64(i)))
+		}
+	}
+	sort.Strings(a.detLines)
+	return a.detLines
 }
 
 // ReplayFile re-executes a replay file; returns the violations it reproduces for its property.
